@@ -176,16 +176,19 @@ def judge(inst, acc=None, force_qp=False):
 
 
 # ------------------------------------------------------------------ families (thorough)
-def family_instances(n):
-    pats_d = ([0, 1, 3], [5, 0], [0, 0, 0, 9], [3, 1, 4, 1, 5, 9, 2, 6])
-    pats_g = ([2], [0, 3], [1, 0, 2])
+def family_instances(n, rich=True):
+    pats_d = ([0, 1, 3], [5, 0], [0, 0, 0, 9], [3, 1, 4, 1, 5, 9, 2, 6], [9, 3, 5, 7, 3, 1, 2, 6, 4, 3, 5])
+    pats_g = ([2], [0, 3], [1, 0, 2], [1, 0], [0, 1, 1])
     wcyc = [F(1, 100), 1, 10 ** 4, 1, 10 ** 10]
+    wwide = [F(1, 10), F(1, 100), F(1, 10), 100, 10, 1, F(1, 100)]
+    if not rich:  # the three extra patterns (period 11 desired, two 0/1 gap patterns, the wide weight cycle) are left out
+        pats_d, pats_g = pats_d[:4], pats_g[:3]
     for pd in pats_d:
         d = [pd[i % len(pd)] for i in range(n)]
         for pg in pats_g:
             g = lambda i: pg[i % len(pg)]
-            for wname in ("unit", "cycle"):
-                w = [1] * n if wname == "unit" else [wcyc[i % 5] for i in range(n)]
+            for wname in (("unit", "cycle", "wide") if rich else ("unit", "cycle")):
+                w = [1] * n if wname == "unit" else [wcyc[i % 5] for i in range(n)] if wname == "cycle" else [wwide[i % 7] for i in range(n)]
                 s = [1] * n
                 chain = [(i, i + 1, g(i)) for i in range(n - 1)]
                 yield {"fam": "chain", "d": d, "w": w, "s": s, "cons": chain}
@@ -242,7 +245,7 @@ def plan(tier, seed):
     # deep-narrow families (chains, walled chains, stars, ladders, layered DAGs): cheap (~140 CPU-s for n <= 60) and the
     # only scope that reaches repeated split / re-merge of the same constraint, so they run in the quick tier too
     for n in range(1, 61 if tier == "quick" else 101):
-        shards.append({"kind": "fam", "n": n})
+        shards.append({"kind": "fam", "n": n, "rich": tier != "quick" or n <= 40})
     # re-solve path: solve, setDesiredPositions, solve on one solver - every pair of desired vectors
     for r in range(16):
         shards.append({"kind": "resolve", "n": 3, "D": [0, 1, 3], "mod": 16, "rem": r})
@@ -345,7 +348,7 @@ def run_shard(shard):
                         acc.violation(inst, bad[0], bad[1], order=(10 + n, k, idx))
         acc.sample(inst)
     else:
-        for inst in family_instances(shard["n"]):
+        for inst in family_instances(shard["n"], shard.get("rich", True)):
             fam = inst.pop("fam")
             bad = judge(inst, acc)
             acc.evals += 1
